@@ -111,7 +111,7 @@ def run_process_test(bindir, cfg_path, timeout=20):
     return "rejected", p.stdout.decode("utf-8", "replace")[-200:]
 
 
-def probe_running(wd, name, doc, ports):
+def probe_running(wd, name, doc, ports, sweep=True):
     """start the proxy with an accepted configuration and send one request to its http and socks listeners"""
     import socket
     p = bb.Proxy(name, wd, json.dumps(doc))
@@ -128,7 +128,8 @@ def probe_running(wd, name, doc, ports):
     res = "ok"
     why = ""
     try:
-        for port, data in ((ports[1], b"CONNECT 127.0.0.1:9 HTTP/1.1\r\n\r\n"), (ports[1], b"CONNECT localhost:80 HTTP/1.1\r\n\r\n"), (ports[1], b"CONNECT localhost:443 HTTP/1.1\r\n\r\n"), (ports[3], b"\x05\x01\x02\x01\x01a\x01a\x05\x01\x00\x01\x7f\x00\x00\x01\x00\x09")):
+        for port, data in ((ports[1], b"CONNECT 127.0.0.1:9 HTTP/1.1\r\n\r\n"), (ports[1], b"CONNECT 127.0.0.1:9 HTTP/1.1\r\n\r\n"), (ports[1], b"CONNECT 127.0.0.1:9 HTTP/1.1\r\n\r\n"),
+                           (ports[1], b"CONNECT localhost:80 HTTP/1.1\r\n\r\n"), (ports[1], b"CONNECT localhost:443 HTTP/1.1\r\n\r\n"), (ports[3], b"\x05\x01\x02\x01\x01a\x01a\x05\x01\x00\x01\x7f\x00\x00\x01\x00\x09")):
             try:
                 s = socket.create_connection(("127.0.0.1", port), timeout=3)
             except OSError:
@@ -145,7 +146,7 @@ def probe_running(wd, name, doc, ports):
                 pass
             s.close()
         # finished connections are handed to the access log by the once-a-second sweep
-        time.sleep(2.2)
+        time.sleep(2.2 if sweep else 0.3)
         if not p.alive():
             res, why = "died", str(p.panicked())[:200]
         else:
@@ -259,12 +260,17 @@ def run(tier, t0):
             v.report("config/process-%s/%s/%s/%s" % (st, r["path"], r["op"], r["param"]), {"output": msg}, {"cmd": "rp --test 1 -c <mutant>", "yaml": json.dumps(d)})
         agree += int(st == out[[c["id"] for c, (k2, r2, d2) in zip(cases, meta) if d2 is d][0]]["load"])
     nrun = 0
-    logrows = [(r, d) for r, d in accepted_rows if r["op"] in ("logscript", "startup")]
-    others = [(r, d) for r, d in accepted_rows if r["op"] not in ("logscript", "startup")]
+    # always started and probed: script formats, start-up stage values, and everything that changes what refers to what
+    # (members of the load balancer, rule targets, names): a dangling reference only shows when a request is routed to it
+    def refers(r):
+        return r["path"].startswith("connectors.3") or r["path"].startswith("rules.") or r["path"].endswith(".name") or \
+            r["param"] in ("unknown_ref", "self_ref", "dup_name", "deny")
+    logrows = [(r, d) for r, d in accepted_rows if r["op"] in ("logscript", "startup") or refers(r)]
+    others = [(r, d) for r, d in accepted_rows if not (r["op"] in ("logscript", "startup") or refers(r))]
     if not any(r["param"] == "valid" for r, _ in logrows):
         raise vlib.ToolError("the valid access-log script is not accepted")
     for r, d in logrows + rnd.sample(others, min(len(others), 60 if thorough else 10)):
-        st, why = probe_running(wd, "acc%d" % nrun, d, ports)
+        st, why = probe_running(wd, "acc%d" % nrun, d, ports, sweep=(r["op"] == "logscript" or r["path"].startswith("accessLog")))
         nrun += 1
         if st not in ("ok", "did-not-start"):
             v.report("config/accepted-then-%s/%s/%s/%s" % (st, r["path"], r["op"], r["param"]), {"why": why}, {"yaml": json.dumps(d)})
